@@ -765,7 +765,11 @@ func packSizeEveryMember(r *core.Run, rule string) {
 	fPS := p.Field("tds", "Conn", "packetSize")
 	applied := true
 	var where token.Pos
-	core.EnumPaths(test.Block().Succs[0], func(b *ssa.BasicBlock) bool { return b == h }, nil, 4000, func(pa core.Path, ended bool) {
+	isPack := test.Block().Succs[0]
+	if bo, isBo := test.Cond.(*ssa.BinOp); isBo && bo.Op == token.NEQ {
+		isPack = test.Block().Succs[1]
+	}
+	core.EnumPaths(isPack, func(b *ssa.BasicBlock) bool { return b == h }, nil, 4000, func(pa core.Path, ended bool) {
 		stored := false
 		for _, b := range pa.Blocks {
 			for _, in := range b.Instrs {
